@@ -497,9 +497,16 @@ class Collections:
 
     # ------------------------------------------------------------------ normalisation
     def normalise(self, d: Desc, depth: int = 8) -> Desc:
-        """Composes locally built sources away: afterwards every binder ranges over a root."""
-        out = Desc(removals=list(d.removals), unknown=list(d.unknown))
-        work = list(d.contribs)
+        """Composes locally built sources away: afterwards every binder ranges over a root (also for removal events)."""
+        out = Desc(unknown=list(d.unknown))
+        self._normalise_into(list(d.contribs), out, out.contribs, depth)
+        rem = Desc()
+        self._normalise_into([r for r in d.removals if r.binders], rem, rem.contribs, depth)
+        out.removals = [r for r in d.removals if not r.binders] + rem.contribs + out.removals + rem.removals
+        out.unknown += rem.unknown
+        return out
+
+    def _normalise_into(self, work: list, out: Desc, sink: list, depth: int) -> None:
         guard = 0
         while work:
             guard += 1
@@ -509,7 +516,7 @@ class Collections:
             c = work.pop(0)
             idx = next((i for i, b in enumerate(c.binders) if not b.root), None)
             if idx is None:
-                out.contribs.append(c)
+                sink.append(c)
                 continue
             b = c.binders[idx]
             src = b.source
@@ -552,7 +559,7 @@ class Collections:
                     tnew = copy_node(ib.target, self.fi)
                     for nm in ast.walk(tnew):
                         if isinstance(nm, ast.Name):
-                            fresh = f"{nm.id.split('__b')[0]}__b{next(_fresh)}"
+                            fresh = f"{nm.id.split('__')[0]}__b{next(_fresh)}"
                             ren[nm.id] = ast.Name(id=fresh, ctx=ast.Load())
                             nm.id = fresh
                     inner_binders.append(Binder(tnew, ib.source, ib.loop, ib.root))
@@ -578,7 +585,6 @@ class Collections:
                     c.nlocal,
                 )
                 work.insert(0, nc)
-        return out
 
     @staticmethod
     def _match_target(target: ast.AST, ci: Contribution) -> dict[str, ast.expr] | None:
